@@ -19,6 +19,7 @@ import PetgraphModel.Proofs.C17W4Preserved
 import PetgraphModel.Proofs.C17W4Iter
 import PetgraphModel.Proofs.C17W4Next
 import PetgraphModel.Proofs.C17W4Complete
+import PetgraphModel.Proofs.C17W6
 import PetgraphModel.Theorems.C01
 import PetgraphModel.Theorems.C02
 import PetgraphModel.Theorems.C03
@@ -1230,5 +1231,120 @@ theorem C17_loaded_next_node_index (END : Nat) (directed : Bool) (order : List F
       ∀ (j : Nat) (nd' : NodeSlot), s.g.nodes[j]? = some nd' → nd'.w = none → j ≤ i) ∨
     ((∀ (j : Nat) (nd' : NodeSlot), s.g.nodes[j]? = some nd' → nd'.w ≠ none) ∧ r = .ok s.g.nodes.length) :=
   SerdeProofs.loaded_next_node_index h x hr
+
+/-! ### wave 6: the rarely used whole-graph operations, on loaded graphs too
+
+`reverse`, `clear_edges` and `clear` (run by the correspondence inside the histories before a serialization and on
+every kind of graph that came out of a deserializer: "reverse then remove", "clear then reuse") keep the structural
+invariant and change the abstract indexed graph exactly as documented; so every theorem above whose hypothesis is the
+invariant — the round trips, the bridges to C01/C02 and the all-histories theorems behind them — applies after them. -/
+
+theorem C17_reverse_involutive_stable (s : Stable) : s.reverse.reverse = s := SerdeProofs.stable_reverse_reverse s
+
+theorem C17_reverse_involutive_graph (g : Raw) : g.reverse.reverse = g := SerdeProofs.raw_reverse_reverse g
+
+/-- `StableGraph::reverse` (vacant slots skipped) keeps the full invariant, free lists included (cf. the fixed D3) -/
+theorem C17_reverse_inv_stable (s : Stable) (h : StableInv s) : StableInv s.reverse := SerdeProofs.stableInv_reverse s h
+
+theorem C17_reverse_inv_graph (g : Raw) (h : GraphInv g) : GraphInv g.reverse := SerdeProofs.graphInv_reverse g h
+
+/-- … and the graph afterwards is the same indexed graph with the endpoints of every live edge exchanged: same node
+indices and weights, same edge indices and weights, same vacancies and bounds. -/
+theorem C17_reverse_view_stable (s : Stable) : viewRaw s.reverse.g = (viewRaw s.g).rev := SerdeProofs.viewRaw_stable_reverse s
+
+theorem C17_reverse_view_graph (g : Raw) : viewRaw g.reverse = (viewRaw g).rev := SerdeProofs.viewRaw_raw_reverse g
+
+/-- `StableGraph::clear_edges` ("without touching the free list") keeps the invariant -/
+theorem C17_clear_edges_inv_stable (s : Stable) (h : StableInv s) : StableInv s.clearEdges :=
+  SerdeProofs.stableInv_clearEdges s h
+
+theorem C17_clear_edges_inv_graph (g : Raw) (h : GraphInv g) : GraphInv g.clearEdges := SerdeProofs.graphInv_clearEdges g h
+
+/-- … every node index, weight and node vacancy stays, no edge and no edge vacancy is left -/
+theorem C17_clear_edges_view_stable (s : Stable) :
+    viewRaw s.clearEdges.g = { viewRaw s.g with edges := [], edgeBound := 0 } := SerdeProofs.viewRaw_stable_clearEdges s
+
+theorem C17_clear_edges_view_graph (g : Raw) :
+    viewRaw g.clearEdges = { viewRaw g with edges := [], edgeBound := 0 } := SerdeProofs.viewRaw_raw_clearEdges g
+
+/-- `clear` leaves exactly the empty graph of the same index type and edge type, which satisfies the invariant:
+"clear then reuse" is "use a new graph". -/
+theorem C17_clear_is_empty (s : Stable) (g : Raw) :
+    s.clear = Stable.empty s.g.END s.g.directed ∧ StableInv s.clear ∧
+    g.clear = Raw.empty g.END g.directed ∧ GraphInv g.clear :=
+  ⟨rfl, SerdeProofs.stableInv_empty _ _, rfl, SerdeProofs.graphInv_empty _ _⟩
+
+/-- **a loaded `StableGraph`, reversed, serialized and loaded again** is the loaded graph with every edge reversed:
+for EVERY wire value that loads, at every index width. -/
+theorem C17_loaded_reverse_roundtrip (END : Nat) (directed : Bool) (order0 : List Field) (w0 : Wire) (s : Stable)
+    (h : deStable END directed order0 w0 = .ok s) (order : List Field) (ho : FullOrder order) :
+    ∃ w s', serStable s.reverse = some w ∧ deStable END directed order w = .ok s' ∧ StableInv s' ∧
+      viewRaw s'.g = (viewRaw s.g).rev := by
+  obtain ⟨hI, hE, hd, hn, he⟩ := C17_de_inv_stable END directed order0 w0 s h
+  have hI' := SerdeProofs.stableInv_reverse s hI
+  have hv := SerdeProofs.viewRaw_stable_reverse s
+  have hnb : s.reverse.nodeBound = s.nodeBound := congrArg SerdeProofs.IView.nodeBound hv
+  have heb : s.reverse.edgeBound = s.edgeBound := congrArg SerdeProofs.IView.edgeBound hv
+  have hcn : s.reverse.nodeBound < s.reverse.g.END := by
+    rw [hnb]; show s.nodeBound < s.g.END
+    have := SerdeProofs.boundOf_le (fun (n : NodeSlot) => n.w.isSome) s.g.nodes
+    unfold Stable.nodeBound; omega
+  have hce : s.reverse.edgeBound < s.reverse.g.END := by
+    rw [heb]; show s.edgeBound < s.g.END
+    have := SerdeProofs.boundOf_le (fun (e : EdgeSlot) => e.w.isSome) s.g.edges
+    unfold Stable.edgeBound; omega
+  obtain ⟨w, s', h1, h2, h3, _, _⟩ := C17_roundtrip_preserves_exactly_the_view.1 s.reverse hI' order ho hcn hce
+  have hE' : s.reverse.g.END = END := hE
+  have hd' : s.reverse.g.directed = directed := hd
+  rw [hE', hd'] at h2
+  exact ⟨w, s', h1, h2, (C17_de_inv_stable END directed order w s' h2).1, h3.trans hv⟩
+
+/-- the same after `clear_edges`: the nodes and node vacancies of the loaded graph, no edges -/
+theorem C17_loaded_clear_edges_roundtrip (END : Nat) (directed : Bool) (order0 : List Field) (w0 : Wire) (s : Stable)
+    (h : deStable END directed order0 w0 = .ok s) (order : List Field) (ho : FullOrder order) :
+    ∃ w s', serStable s.clearEdges = some w ∧ deStable END directed order w = .ok s' ∧ StableInv s' ∧
+      viewRaw s'.g = { viewRaw s.g with edges := [], edgeBound := 0 } := by
+  obtain ⟨hI, hE, hd, hn, he⟩ := C17_de_inv_stable END directed order0 w0 s h
+  have hI' := SerdeProofs.stableInv_clearEdges s hI
+  have hv := SerdeProofs.viewRaw_stable_clearEdges s
+  have hnb : s.clearEdges.nodeBound = s.nodeBound := congrArg SerdeProofs.IView.nodeBound hv
+  have heb : s.clearEdges.edgeBound = 0 := congrArg SerdeProofs.IView.edgeBound hv
+  have hcn : s.clearEdges.nodeBound < s.clearEdges.g.END := by
+    rw [hnb]; show s.nodeBound < s.g.END
+    have := SerdeProofs.boundOf_le (fun (n : NodeSlot) => n.w.isSome) s.g.nodes
+    unfold Stable.nodeBound; omega
+  have hce : s.clearEdges.edgeBound < s.clearEdges.g.END := by
+    rw [heb]; show 0 < s.g.END; omega
+  obtain ⟨w, s', h1, h2, h3, _, _⟩ := C17_roundtrip_preserves_exactly_the_view.1 s.clearEdges hI' order ho hcn hce
+  have hE' : s.clearEdges.g.END = END := hE
+  have hd' : s.clearEdges.g.directed = directed := hd
+  rw [hE', hd'] at h2
+  exact ⟨w, s', h1, h2, (C17_de_inv_stable END directed order w s' h2).1, h3.trans hv⟩
+
+/-- a `StableGraph` with a node vacancy and an edge vacancy, built by the modelled calls -/
+def w6Witness : Except Fault Stable := do
+  let (s1, _) ← (Stable.empty 255 true).tryAddNode 5
+  let (s2, _) ← s1.tryAddNode 6
+  let (s3, _) ← s2.tryAddNode 7
+  let (s4, _) ← s3.tryAddEdge 0 2 1
+  let (s5, _) ← s4.tryAddEdge 2 2 3
+  let (s6, _) ← s5.tryAddEdge 2 0 4
+  let (s7, _) ← s6.removeNode 1
+  let (s, _) ← s7.removeEdge 0
+  pure s
+
+/-- non-vacuity: that state satisfies the invariant, its reversal and its `clear_edges` do, the free lists are where
+they were, the reversed graph's stream lists the live edges with their endpoints exchanged, and the cleared one keeps
+the node vacancy. -/
+example :
+    (match w6Witness with
+     | .ok s =>
+       stableInvB s && stableInvB s.reverse && stableInvB s.clearEdges &&
+       (s.freeNode == 1) && (s.reverse.freeNode == 1) && (s.freeEdge == 0) && (s.reverse.freeEdge == 0) &&
+       ((serStable s).map Wire.edges == some [none, some (2, 2, 3), some (2, 0, 4)]) &&
+       ((serStable s.reverse).map Wire.edges == some [none, some (2, 2, 3), some (0, 2, 4)]) &&
+       ((serStable s.clearEdges).map (fun (w : Wire) => (w.nodes, w.holes, w.edges)) == some ([5, 7], [1], []))
+     | .error _ => false) = true := by
+  decide
 
 end PetgraphModel.C17T
